@@ -36,13 +36,16 @@ GEO = ["RRT", "RRT+is", "RRTConnect", "RRTConnect+is", "RRTstar", "InformedRRTst
        "LazyLBTRRT", "LazyRRT", "TRRT", "BiTRRT", "LazyPRM", "LazyPRMstar", "KPIECE1", "BKPIECE1", "LBKPIECE1",
        "EST", "BiEST", "ProjEST", "SBL", "STRIDE", "PDST", "FMT", "BFMT", "BITstar", "ABITstar", "AITstar",
        "EITstar", "EIRMstar", "SST", "RLRT", "BiRLRT"]
-CTL = ["control::RRT", "control::RRT+is", "control::SST", "control::EST", "control::KPIECE1", "control::PDST"]
+CTL = ["control::SyclopRRT", "control::SyclopEST", "control::RRT", "control::RRT+is", "control::SST", "control::EST", "control::KPIECE1", "control::PDST"]
 MLV = ["QRRT", "QRRTStar", "QMP", "QMPStar"]
-ROADMAP = ["PRM:construct", "PRMstar:construct", "SPARS:construct", "SPARStwo:construct"]
+# PRM::constructRoadmap alternates grow/expand in wall-clock slices (not reproducible by design): its constituents
+# growRoadmap/expandRoadmap are driven under counting conditions instead; SPARS/SPARStwo::constructRoadmap have no timer
+ROADMAP = ["PRM:growexpand", "PRMstar:growexpand", "SPARS:construct", "SPARStwo:construct"]
 # not deterministic by construction on this tree: observed (thorough tier, counted), never alarmed on
 EXCLUDED = {
     "PRM": "PRM::solve runs checkForSolution() in a second std::thread that polls every millisecond; when it "
-           "notices the solution is a race with roadmap growth",
+           "notices the solution is a race with roadmap growth; PRM::constructRoadmap switches between growing and "
+           "expanding in wall-clock slices of 0.4 s / 0.2 s",
     "PRMstar": "derives from PRM (same second thread)",
     "SPARS": "SPARS::solve runs checkForSolution() in a second std::thread",
     "SPARStwo": "SPARStwo::solve runs checkForSolution() in a second std::thread",
@@ -54,8 +57,7 @@ EXCLUDED = {
 MAX_PLANNER_REPORTS = 6      # replays written per run for diverging planners; further ones are only counted
 NOT_CONSTRUCTED = {
     "STRRTstar": "needs a SpaceTimeStateSpace problem", "TSRRT": "needs a task-space configuration",
-    "VFRRT": "needs a vector field", "XXL": "needs a workspace decomposition",
-    "Syclop*": "needs a decomposition", "LTLPlanner": "needs an LTL product graph",
+    "VFRRT": "needs a vector field", "LTLPlanner": "needs an LTL product graph and runs under its own wall-clock condition",
     "Lightning/Thunder": "need an experience database; time their own phases with the wall clock",
 }
 
@@ -321,6 +323,9 @@ def oracle_rng(lines, out, pairs=()):
             rad = core.bits2f(t[3]) if t[0] == "ball" else 1.0
             if (t[0] == "sphere" and abs(n2 - 1.0) > 1e-9) or (t[0] == "ball" and n2 > rad * rad * (1 + 1e-9)):
                 return (i, "%s returned a point of norm^2 %r" % (ln, n2))
+        if t[0] == "hni" and len(t) == 5 and o.lstrip("-").isdigit() and t[2].lstrip("-").isdigit() and t[3].lstrip("-").isdigit():
+            if not (int(t[2]) <= int(o) <= int(t[3])):
+                return (i, "halfNormalInt(%s, %s) returned %s, outside the range" % (t[2], t[3], o))
         if t[0] == "shuffle" and len(t) == 3 and o.startswith("perm"):
             if sorted(map(int, o.split()[1:])) != list(range(int(t[2]))):
                 return (i, "shuffle of 0..%s-1 did not return a permutation" % t[2])
@@ -405,6 +410,7 @@ def planner_jobs(ck, tier):
                 jobs.append((pl, "ctlz", s, b))
             for pl in MLV:
                 jobs.append((pl, "ml3", s, b))
+            jobs.append(("XXL", "se2", s, b))      # the only user of RNG::shuffle; needs an SE(2) decomposition
             # the roadmap planners through their single-threaded entry point (solve() itself starts a second thread)
             for pl in ROADMAP:
                 for e in ("box2", "se2", "cz2"):
@@ -415,6 +421,7 @@ def planner_jobs(ck, tier):
     for s in hseeds:
         for opts, b in (("hist=scs", 500), ("hist=ss", 400), ("ptc=iter", 120), ("ptc=iter", 17), ("starts=2", 700),
                         ("params=alt", 700), ("starts=2 params=alt hist=scs", 500)):
+            jobs.append(("XXL", "se2", s, b, opts))
             for pl in GEO + ROADMAP:
                 if pl in ROADMAP and ("ptc=iter" in opts):
                     continue
@@ -669,8 +676,17 @@ def copies_rebind():
     return "RNG(const RNG &" in src or "RNG(const RNG&" in src
 
 
+def hni_fixed():
+    """fact read off the tree under test: does halfNormalInt still cast before clamping (as coded, F204)?"""
+    try:
+        src = open(os.path.join(core.REPO, "src", "ompl", "util", "src", "RandomNumbers.cpp")).read()
+    except OSError:
+        return False
+    return "(int)floor(halfNormalReal(" not in src
+
+
 def rng_header(clock):
-    return "rng clock=%d%s" % (clock, " copies=rebind" if copies_rebind() else "")
+    return "rng clock=%d%s%s" % (clock, " copies=rebind" if copies_rebind() else "", " hni=fixed" if hni_fixed() else "")
 
 
 def run_rng(ck, hbin, body, clock, variant=0, model=True):
@@ -721,6 +737,15 @@ def judge_rng(ck, hbin, body, seeds, tag, pairs=(), model=True, two_proc=False, 
                "as_coded": impl == mod}
         if ck.report(rec, script=script, expected=mod, observed=impl, engine="rng"):
             ck.log("property failure (copied RNG): %s" % fail[1])
+            return False
+        return True
+    if fail is not None and fail[0] < len(body) and body[fail[0]].split()[0] == "hni" and body[fail[0]].split()[3] == "2147483647" \
+            and fail[0] < len(impl) and impl[fail[0]].lstrip("-").isdigit():
+        # F204 class: the model follows the code as coded (x86 cast), so it predicts the wrong value exactly
+        rec = {"engine": "rng", "kind": "rng-oracle", "input_class": "halfNormalInt-upper-bound-INT_MAX",
+               "returned": int(impl[fail[0]]), "as_coded": impl == mod}
+        if ck.report(rec, script=script, expected=mod, observed=impl, engine="rng"):
+            ck.log("property failure: %s" % fail[1])
             return False
         return True
     if fail is not None:
@@ -858,6 +883,11 @@ def run(ck):
         seeds, body, pairs = gen_copy(ck.rng.fork("copy%d" % i))
         tasks.append(dict(body=body, seeds=seeds, tag="copy", pairs=pairs, copy_script=True))
     tasks.append(dict(body=["boosttables"], seeds=[], tag="corpus"))
+    # directed draws: generators/positions whose next Gaussian is within 4e-7 of 0, where halfNormalReal(INT_MAX, 2^31)
+    # rounds up to exactly 2^31 (found offline by running the real RNG over seeds 1..400000)
+    for sd, n in ((6626, 136), (15238, 119), (28638, 160), (31649, 105)):
+        tasks.append(dict(body=["newl %d" % sd, "g01n 0 %d" % n, "hni 0 2147483647 2147483647 %s" % fb(3.0), "u01 0"],
+                          seeds=[sd], tag="hni-directed"))
     for i in range(n_stream):
         seeds, body = gen_streams(ck.rng.fork("stream%d" % i))
         tasks.append(dict(body=body, seeds=seeds, tag="streams"))
@@ -1061,7 +1091,8 @@ MANIFEST = {
             "differential runs of the real RNG against the compiled model (PHS outputs are confirmed to be transform() of the "
             "model's point). Sampler level: every shipped sampler's output is independent of the output state's old content. "
             "Planner determinism is observed: every single-threaded planner that can be constructed generically (geometric, "
-            "control, multilevel, the roadmap planners through constructRoadmap, Thunder's SPARSdb::addPathToRoadmap) is run in "
+            "control incl. Syclop, multilevel, XXL, PRM through growRoadmap/expandRoadmap, SPARS/SPARStwo through constructRoadmap, "
+            "Thunder's SPARSdb::addPathToRoadmap) is run in "
             "two separate processes (ASLR, shifted stack, different heap fill and layout, different fresh-state filler) under an "
             "evaluation-counting condition or ompl's IterationTerminationCondition, also over solve/clear/solve and solve/solve "
             "histories, two starts and goals, non-default parameters, and must return identical status, path, planner data and "
@@ -1073,8 +1104,9 @@ MANIFEST = {
             "ziggurat tables are hashed on both sides). Planners are observed, not proved; solve() of PRM/PRMstar/SPARS/SPARStwo "
             "and pRRT/pSBL/CForest/AnytimePathShortening use threads and are excluded; planners needing special problem "
             "classes are not constructed (see notes/C20.md). F200 (copied RNG) and F201 (SPARSdb random_device) are fixed in /repo; "
-            "open: F202 (GNAT orders exact distance ties by element address; repair proposed) with its planner-level "
-            "manifestation F203.",
+            "F202/F203 (GNAT ordered exact distance ties by element address) are fixed as well and stay as a two-layout "
+            "regression; open: F204 (halfNormalInt casts before clamping, INT_MIN for r_max = INT_MAX; fix proposed). "
+            "PRM::constructRoadmap is wall-clock sliced by design and excluded; its grow/expand parts are driven.",
     "technique": "Lean 4 proof (state-machine equalities, bisimulation for the stale saved value, induction over oracle "
                  "computations) + bit-exact differential correspondence + two-process differential runs of planners",
 }
